@@ -23,7 +23,9 @@ Record nobs := mkN {
   o_contains : result bool;             (* name in coll *)
   o_getitem : result nat;               (* id of coll[name] *)
   o_parser : result (option string);    (* Parser(coll.to_contexts()).contexts: primary name if accepted *)
-  o_ran : result (option nat)           (* id of the body run by Program.run([prog, name]) *)
+  o_ran : result (option nat);          (* id of the body run by Program.run([prog, name]);
+                                           for the empty name: by Program.run([prog]) *)
+  o_help : result (option nat)          (* id of the task whose help Program.run([prog, "--help", name]) prints *)
 }.
 
 Definition resolves (o : nobs) : bool :=
@@ -45,6 +47,29 @@ Definition name_ok (ad : bool) (n : string) (o : nobs) : bool :=
      | _, _ => false
      end
    else match o_ran o with Ok None => true | _ => false end).
+
+(** per-task help is offered for exactly the accepted names and documents the
+    task lookup returns *)
+Definition help_ok (o : nobs) : bool :=
+  match o_help o with
+  | Ok (Some i) => accepted o && match o_getitem o with Ok j => Nat.eqb i j | Err _ => false end
+  | Ok None => negb (accepted o)
+  | Err _ => false
+  end.
+
+(** no task on the command line: the default task, i.e. the task lookup of
+    the empty name returns, runs -- and nothing when there is none *)
+Definition default_ok (o : nobs) : bool :=
+  negb (accepted o) &&
+  match o_getitem o, o_ran o with
+  | Ok j, Ok (Some i) => Nat.eqb i j
+  | Err _, Ok None => true
+  | Err e, Err e' => err_eqb e e'
+  | _, _ => false
+  end.
+
+Definition token_ok (ad : bool) (n : string) (o : nobs) : bool :=
+  if String.eqb n "" then default_ok o else name_ok ad n o && help_ok o.
 
 (** ** listings *)
 Definition r_depth (r : row) : nat := fst (fst (fst r)).
@@ -162,7 +187,9 @@ Definition listing_ok (c : coll) (view : nat) (obs : result (list row)) : bool :
   | _ =>
       match obs with
       | Err _ => false
-      | Ok rows =>
+      | Ok rows0 =>
+          (* the "Default task:" trailer (pseudo-row of depth 1000) is not an entry *)
+          let rows := filter (fun r => negb (Nat.eqb (r_depth r) 1000)) rows0 in
           let shown :=
             match view with
             | 1 => flat_shown rows
@@ -250,7 +277,7 @@ Definition spec_ok (script : item) (c : coll) (view : nat) (names : list string)
   if script_clean script then
     defaults_consistent c &&
     match view with
-    | O => all2 (name_ok (c_auto_dash c)) names nos
+    | O => all2 (token_ok (c_auto_dash c)) names nos
     | _ => listing_ok c view rows
     end
   else true.
